@@ -138,6 +138,9 @@ class Sim(object):
         self.sleeps = 0
         self.inline_task = None
         self._last_state = None
+        # faults placed by statement shape instead of ordinal:
+        # [{'verb', 'table', 'kind', 'nth'}] - fires at the nth match
+        self.match_faults = []
 
     # -- clock -------------------------------------------------------------
     def utcnow(self):
@@ -317,6 +320,16 @@ class Sim(object):
         if self.trace_sql:
             task.ops.append(('S', verb, table))
         kind = self.faults.get((task.idx, k))
+        if kind is None and self.match_faults:
+            for mf in self.match_faults:
+                if mf.get('fired') or mf['verb'] != verb or \
+                        mf['table'] != table:
+                    continue
+                mf['seen'] = mf.get('seen', 0) + 1
+                if mf['seen'] == mf.get('nth', 1):
+                    mf['fired'] = True
+                    kind = mf['kind']
+                    break
         if kind is None:
             return
         conn = cursor.connection
@@ -341,6 +354,25 @@ class Sim(object):
             task.pending_winners.append((statement, parameters, many))
             raise sqlite3.IntegrityError(
                 'UNIQUE constraint failed: %s.%s' % (table, col))
+        elif kind == 'dupkey-id':
+            # lost race for a locally computed primary key (custom resource
+            # class ids are max(id)+1): another creator took this id for a
+            # DIFFERENT name.  The winner row appears when the victim's
+            # transaction has ended.
+            m = re.match(r'\s*INSERT\s+INTO\s+"?(\w+)"?\s*\(([^)]*)\)',
+                         statement, re.I)
+            if verb != 'INSERT' or not m or many:
+                return
+            cols = [c.strip().strip('"') for c in m.group(2).split(',')]
+            if 'id' not in cols or 'name' not in cols:
+                return
+            self._count(task, kind, k)
+            params = list(parameters)
+            the_id = params[cols.index('id')]
+            params[cols.index('name')] = 'CUSTOM_RACE_WINNER_%s' % the_id
+            task.pending_winners.append((statement, tuple(params), False))
+            raise sqlite3.IntegrityError(
+                'UNIQUE constraint failed: %s.id' % table)
         elif kind == 'connlost':
             self._count(task, kind, k)
             conn.rollback()
